@@ -367,6 +367,8 @@ func c10(args []string) {
 	c10staleAudit(c)
 	c10pathShapes(c)
 	c10globbed(c)
+	c10setOutOnly(c)
+	c10auditWriteFails(c)
 	c.Finish()
 }
 
@@ -604,5 +606,147 @@ func c10globbed(c *chk.Ctx) {
 		}
 		c.Count("audit_records_compared", 2*n)
 		c.Nontrivial(fmt.Sprintf("globbed|%d|%s", n, prefix))
+	})
+}
+
+// c10setOutOnly: out-ports that exist only through SetOut (the tool derives the name of a second file itself, the
+// command pattern has no {o:...} for it): such an output is finalized like any other and carries its record; a run
+// resumed behind it finds the lineage through it.
+func c10setOutOnly(c *chk.Ctx) {
+	run.Parallel(c.Pick(3, 9), func(i int) {
+		root := c.CaseDir()
+		defer c.Drop(root)
+		s := &spec.Spec{Name: "auditsetoutonly", MaxTasks: 2, Sources: map[string]string{"u0.txt": "u0\n", "u1.txt": "u1\n"}}
+		pat := []string{"sd/{i:in|basename}.w.res", "{i:in|basename}.w.res", "sd/deep/er/{i:in|basename}.w.res"}[i%3]
+		w := &spec.Proc{Name: "W", Kind: spec.KCmd, Cmd: spec.VcmdPath + " run id=W i=in:{i:in} o=main:{o:main} o=res:" + pat, Outs: []*spec.Out{{Port: "res", Pattern: pat}}}
+		if i%2 == 1 {
+			w.Cmd = spec.VcmdPath + " run id=W i=in:{i:in} o=res:" + pat // the SetOut-only port is the only one
+		}
+		s.Procs = append(s.Procs, &spec.Proc{Name: "src", Kind: spec.KFileSource, Files: []string{"u0.txt", "u1.txt"}}, w,
+			&spec.Proc{Name: "D", Kind: spec.KCmd, Cmd: spec.BuildCmd("D", []spec.PortDecl{{Name: "in"}}, []spec.PortDecl{{Name: "out"}}, nil, nil, nil)})
+		s.Conns = append(s.Conns, &spec.Conn{From: "src.out", To: "W.in"}, &spec.Conn{From: "W.res", To: "D.in"})
+		exp := evalRef(s, nil)
+		if exp.Err != "" {
+			c.Broken("reference cannot evaluate " + s.Name + ": " + exp.Err)
+		}
+		desc := map[string]interface{}{"spec": s, "port": "declared through SetOut only", "history": "RunTo(W), then Run"}
+		s1 := s.Clone()
+		s1.Run = spec.Run{Mode: "runto", Targets: []string{"W"}}
+		r1 := execSpec(c, root, s1, Cfg{Buf: 3, Procs: 2}, nil, false, 0)
+		if r1.Hang != "" && !strings.HasPrefix(r1.Hang, "deadlock") {
+			c.Inconclusive(r1.Hang)
+			return
+		}
+		res := execSpec(c, root, s, Cfg{Buf: 3, Procs: 2}, nil, true, 1)
+		if res.Hang != "" && !strings.HasPrefix(res.Hang, "deadlock") {
+			c.Inconclusive(res.Hang)
+			return
+		}
+		if r1.Exit != 0 || res.Hang != "" || res.Exit != 0 || !res.Returned {
+			c.Violation("run:exit-nonzero", fmt.Sprintf("out-port declared through SetOut only: exit %d then %d %s: %s", r1.Exit, res.Exit, res.Hang, tail(res.Output(), 400)), desc)
+			return
+		}
+		var ps []mon.Problem
+		n := 0
+		for path, want := range exp.AuditFor {
+			got, err := mon.LoadAudit(filepath.Join(res.Wd, path+".audit.json"))
+			if err != nil {
+				ps = append(ps, mon.Problem{Sig: "audit-file-unreadable", Msg: err.Error()})
+				continue
+			}
+			ps = append(ps, mon.CompareAudit(got, want, path, false)...)
+			n += got.Count()
+		}
+		if len(ps) > 0 {
+			for _, sig := range sigSet(ps) {
+				desc["problems"] = mon.Summarize(ps, 10)
+				c.Violation(sig+"|setout-only-port", "out-port declared through SetOut only: "+strings.Join(mon.Summarize(ps, 4), "\n  "), desc)
+			}
+			return
+		}
+		if n == 0 {
+			c.Broken("no audit record compared in the SetOut-only case")
+		}
+		c.Count("audit_records_compared", n)
+		c.Nontrivial(fmt.Sprintf("setoutonly|%d", i))
+	})
+}
+
+// c10auditWriteFails: the library's own write of an audit file fails (a file size limit stands in for a quota or a
+// full disk; the records of a deep chain carry their whole lineage and outgrow it first). Whatever the library does
+// then, no output may be finalized with a record that is not valid, complete JSON: "each output file finalized by a
+// task is accompanied by <path>.audit.json: valid JSON ...". Plain shell tools, no harness trace.
+func c10auditWriteFails(c *chk.Ctx) {
+	run.Parallel(c.Pick(4, 12), func(i int) {
+		root := c.CaseDir()
+		defer c.Drop(root)
+		depth := 9 + i%3
+		limit := []int{4096, 7000, 2500, 9000}[i%4]
+		s := &spec.Spec{Name: "auditquota", MaxTasks: 2, Sources: map[string]string{"q0.txt": "q0\n", "q1.txt": "q1\n"}}
+		s.Procs = append(s.Procs, &spec.Proc{Name: "src", Kind: spec.KFileSource, Files: []string{"q0.txt", "q1.txt"}})
+		prev := "src.out"
+		var finals []string
+		for d := 0; d < depth; d++ {
+			pn := fmt.Sprintf("st%02d", d)
+			pat := fmt.Sprintf("{i:in|basename|%%.txt}.%s.txt", pn)
+			if d > 0 {
+				pat = fmt.Sprintf("{i:in|basename|%%.st%02d.txt}.%s.txt", d-1, pn)
+			}
+			s.Procs = append(s.Procs, &spec.Proc{Name: pn, Kind: spec.KCmd, Cmd: "cat {i:in} > {o:out} && echo " + pn + "-" + strings.Repeat("x", 150) + " >> {o:out}", Outs: []*spec.Out{{Port: "out", Pattern: pat}}})
+			s.Conns = append(s.Conns, &spec.Conn{From: prev, To: pn + ".in"})
+			prev = pn + ".out"
+			for _, q := range []string{"q0", "q1"} {
+				finals = append(finals, fmt.Sprintf("%s.%s.txt", q, pn))
+			}
+		}
+		s.Procs = append(s.Procs, &spec.Proc{Name: "FINAL", Kind: spec.KRecorder})
+		s.Conns = append(s.Conns, &spec.Conn{From: prev, To: "FINAL.in"})
+		cfg := Cfg{Buf: 3, Procs: 2, FSize: limit}
+		desc := map[string]interface{}{"spec": s, "cfg": cfg, "file_size_limit": limit}
+		res := execSpec(c, root, s, cfg, nil, false, 0)
+		if res.Hang != "" {
+			c.Inconclusive(res.Hang)
+			return
+		}
+		var ps []mon.Problem
+		nfinal, nvalid, big := 0, 0, 0
+		for _, f := range finals {
+			if _, err := os.Stat(filepath.Join(res.Wd, f)); err != nil {
+				continue
+			}
+			nfinal++
+			a, err := mon.LoadAudit(filepath.Join(res.Wd, f+".audit.json"))
+			if err != nil {
+				fi, _ := os.Stat(filepath.Join(res.Wd, f+".audit.json"))
+				sz := int64(-1)
+				if fi != nil {
+					sz = fi.Size()
+				}
+				ps = append(ps, mon.Problem{Sig: "finalized-output-without-valid-audit-record", Msg: fmt.Sprintf("%s is at its final path, its audit file (size %d, limit %d) cannot be read as a record: %v", f, sz, limit, err)})
+				continue
+			}
+			if a.ProcessName == "" || a.Command == "" {
+				ps = append(ps, mon.Problem{Sig: "finalized-output-without-valid-audit-record", Msg: fmt.Sprintf("%s is at its final path, its audit file names no process / command", f)})
+				continue
+			}
+			nvalid++
+			if a.Depth() > big {
+				big = a.Depth()
+			}
+		}
+		if len(ps) > 0 {
+			for _, sig := range sigSet(ps) {
+				desc["problems"] = mon.Summarize(ps, 10)
+				c.Violation(sig+"|audit-write-failed", fmt.Sprintf("file size limit %d, workflow exit %d: %s", limit, res.Exit, strings.Join(mon.Summarize(ps, 4), "\n  ")), desc)
+			}
+			return
+		}
+		if res.Exit == 0 && nfinal == len(finals) {
+			c.Inconclusive(fmt.Sprintf("no audit file outgrew the limit of %d bytes", limit))
+			return
+		}
+		c.Count("audit_records_compared", nvalid)
+		c.Count("audit_write_fault_runs", 1)
+		c.Nontrivial(fmt.Sprintf("auditquota|%d|%d|final%d", depth, limit, nfinal))
 	})
 }
